@@ -18,7 +18,15 @@ const char *san_errfile(void)
 
 void san_child_redirect(void)
 {
-    int fd = open(san_errfile(), O_WRONLY | O_CREAT | O_TRUNC, 0644);
+    /* runs in the case child: the file must be the one its PARENT (the worker) will read.  If the worker has not named its
+       file yet, it will name it after its own pid - which is this child's parent pid (naming it after getpid() here made
+       the first abnormal case of every worker fall back to the unclassified crash-sig / abnormal-exit key) */
+    int fd;
+    if (!san_path[0])
+    {
+        snprintf(san_path, sizeof(san_path), "build/san-%d.err", (int) getppid());
+    }
+    fd = open(san_path, O_WRONLY | O_CREAT | O_TRUNC, 0644);
     if (fd >= 0)
     {
         dup2(fd, 2);
